@@ -71,7 +71,12 @@ def run_harness(exe, args, out_prefix, timeout=60, tsan=False):
     cmd = [exe] + args + ["--trace", trace, "--tmp", tmp + "/tmp_" + os.path.basename(out_prefix)]
     os.makedirs(tmp + "/tmp_" + os.path.basename(out_prefix), exist_ok=True)
     errf = out_prefix + ".err"
-    rc, out = vlib.sh(" ".join(cmd) + " 2> " + errf, timeout=timeout, env=TSAN_ENV if tsan else None)
+    # `exec timeout`: the harness is the direct child (no orphan keeps the pipe open when it is
+    # killed) and is killed by coreutils timeout even if its own watchdog cannot run; rc 124/137 = hang
+    rc, out = vlib.sh("exec timeout -k 2 %d %s 2> %s" % (timeout, " ".join(cmd), errf), timeout=timeout + 15,
+                      env=TSAN_ENV if tsan else None)
+    if rc == 137:
+        rc = 124
     results = []
     for ln in out.splitlines():
         ln = ln.strip()
